@@ -63,6 +63,8 @@ pub fn frame(l: &Layouts, rng: &mut Rng, s: &Sym, k: usize) -> Vec<u8> {
     hdr.insert("date".into(), DATE.to_be_bytes().to_vec());
     hdr.insert("time".into(), (s.id as u32).to_be_bytes().to_vec());
     hdr.insert("azimuth_number".into(), ((s.id % 65_536) as u16).to_be_bytes().to_vec());
+    // the spacing code cycles through 0, 1, 2 and 255 (code 0 is a legal byte: a spacing of 0 degrees)
+    hdr.insert("azimuth_resolution_spacing".into(), vec![[0u8, 1, 2, 255][(s.id % 4) as usize]]);
     // finite angles so that radial equality is meaningful
     hdr.insert("azimuth_angle".into(), ((s.id % 720) as f32 * 0.5).to_bits().to_be_bytes().to_vec());
     hdr.insert("elevation_angle".into(), (s.el as f32 * 0.1).to_bits().to_be_bytes().to_vec());
